@@ -44,12 +44,16 @@ def runStreamE2E (t : String) (cutsS : String) (ms : List Bytes) : String :=
       let f := session tcpInputBufferSize (fun (_ : Unit) ch => some ((), [ch])) { st := () } evs
       let bounds := f.outs.all fun o => 1 ≤ o.length ∧ o.length ≤ tcpInputBufferSize
       s!"{showPayload f.outs.flatten} bounds={bounds}"
-  else if t = "W" then
-    let sent := (ms.map fun m => (wsSend m true).2).flatten
-    let r := wsReceive { sock := sent, buf := [] } [.fill sent.length, .wouldBlock] (sent.length + 3)
-    if r.status != some .waitNextEvent && sent != [] then "model: loop did not end with WaitNextEvent"
-    else showOuts r.outs
   else "bad-case"
+
+/-- W: `none` = a control message (Ping / Pong / Text) written by an independent peer -/
+def runStreamWs (ms : List (Option Bytes)) : String :=
+  let sent : List WsMsg := ms.flatMap fun m => match m with
+    | some b => ((wsSend b true).2).map some
+    | none => [none]
+  let r := wsReceive { sock := sent, buf := [] } [.fill sent.length, .wouldBlock] (sent.length + 3)
+  if r.status != some .waitNextEvent && sent != [] then "model: loop did not end with WaitNextEvent"
+  else showOuts r.outs
 
 /-- arrival order of concurrent senders: per thread strictly increasing and (unless UDP) complete -/
 def runStreamMt (t : String) (threads per : Nat) (toks : List String) : String :=
@@ -89,6 +93,9 @@ def runStream (ws : List String) : String :=
   | ["size", t, _, len] => match len.toNat? with
     | some n => runStreamSize t n
     | none => "bad-case"
+  | "e2e" :: "W" :: _ :: msgs =>
+    let parsed : List (Option (Option Bytes)) := msgs.map fun m => if m = "ctl" then some none else (parseChunk m).map some
+    if parsed.all (·.isSome) then runStreamWs (parsed.filterMap id) else "bad-case"
   | "e2e" :: t :: cuts :: msgs =>
     match parseChunks msgs with
     | some ms => runStreamE2E t cuts ms
